@@ -45,7 +45,10 @@ pub fn outcome_json(r: &Result<String, liquid::Error>) -> J {
 
 pub fn same_outcome(got: &Result<String, liquid::Error>, want: &J) -> bool {
     match got {
-        Ok(s) => want["ok"] == true && (want["anyout"] == true || want["out"].as_str() == Some(s.as_str())),
+        Ok(s) => {
+            want["ok"] == true
+                && (want["anyout"] == true || crate::val::dec_text(&want["out"]).as_deref() == Some(s.as_str()))
+        }
         Err(_) => want["ok"] == false,
     }
 }
